@@ -35,7 +35,10 @@ ProbeStrs == << "a eq 1",
                 "now() gt d",
                 "now(1) gt d",
                 "f.g(k=1, m='it''s')",
-                "nullable eq null and x/all(v: v eq true)" >>
+                "nullable eq null and x/all(v: v eq true)",
+                "geo.distance(a, b) lt 5 and trim(s) eq 'a'",
+                "distance(a, b) lt 5",
+                "geo.trim(s) eq 'a'" >>
 NProbes == Len(ProbeStrs)
 ProbeCps == [i \in 1..NProbes |-> StrCps(ProbeStrs[i])]
 Outcome == [i \in 1..NProbes |-> ParseText(ProbeCps[i])]
